@@ -1,7 +1,7 @@
 (* Model/SecsILine.v — executable model of the SECS-I line protocol of SecsIProtocol: the receiving side
    (_process_received_data: any byte is taken as ENQ and answered with EOT, then the length byte and length+2 further bytes
    are awaited, Block.decode, ACK or NAK) as a machine that consumes the line byte by byte - ByteQueue.wait_for only
-   accumulates, so how the bytes are chunked cannot matter - and the sending side (_process_send_queue: ENQ, one byte
+   accumulates, so how the bytes are chunked cannot matter - and the sending side (_process_send_queue: ENQ, wait for EOT, one byte
    awaited and taken as EOT, the block, one byte awaited: ACK means success).
    Not modelled: contention (both sides sending ENQ), T1-T4 timers (the library has none), the 'return' after a NAK
    (bytes already behind the bad block wait for the next trigger). *)
@@ -35,18 +35,25 @@ Definition line_bytes (o : rout) : list N := match o with SentEOT => [secsi_EOT]
 
 (* the sending side, for one message = list of encoded blocks; `answers`: the bytes the peer puts on the line, in order.
    Result: what was sent, and Some true/false = send_message's result (None: still waiting for a byte) *)
+(* the answers up to and including the first EOT: a block is started only after the receiver's EOT, every other byte is answered
+   by announcing the block again (ENQ) *)
+Fixpoint await_eot (answers : list N) : list (list N) * option (list N) :=
+  match answers with
+  | [] => ([], None)
+  | a :: r => if a =? secsi_EOT then ([], Some r) else let '(e, rest) := await_eot r in ([secsi_ENQ] :: e, rest)
+  end.
 Fixpoint stx (blocks : list (list N)) (answers : list N) : list (list N) * option bool :=
   match blocks with
   | [] => ([], Some true)
   | blk :: rest =>
-    match answers with
-    | [] => ([[secsi_ENQ]], None)                                   (* waiting for the answer to ENQ *)
-    | _ :: a1 =>                                                    (* whatever it is, it is taken as EOT *)
+    match await_eot answers with
+    | (enqs, None) => ([secsi_ENQ] :: enqs, None)                   (* waiting for the answer to ENQ *)
+    | (enqs, Some a1) =>
       match a1 with
-      | [] => ([[secsi_ENQ]; blk], None)                            (* waiting for ACK / NAK *)
+      | [] => ([secsi_ENQ] :: enqs ++ [blk], None)                  (* waiting for ACK / NAK *)
       | r :: a2 =>
-        if r =? secsi_ACK then let '(sent, res) := stx rest a2 in ([secsi_ENQ] :: blk :: sent, res)
-        else ([[secsi_ENQ]; blk], Some false)                       (* the first block that is not acknowledged ends the message *)
+        if r =? secsi_ACK then let '(sent, res) := stx rest a2 in (([secsi_ENQ] :: enqs ++ [blk]) ++ sent, res)
+        else ([secsi_ENQ] :: enqs ++ [blk], Some false)             (* the first block that is not acknowledged ends the message *)
       end
     end
   end.
